@@ -17,7 +17,7 @@
    bindings. *)
 From Coq Require Import List Arith Bool Lia ZArith.
 Import ListNotations.
-From YP Require Import Base.Str Term.Term Unify.Unify Engine.Db Engine.DbCursor Engine.DbCursorThms Engine.DbFacts Engine.DbProg.
+From YP Require Import Base.Str Term.Term Term.Fast Unify.Unify Unify.Fast Engine.Db Engine.DbCursor Engine.DbCursorThms Engine.DbFacts Engine.DbProg.
 Set Implicit Arguments.
 
 Definition is_ins (o : out) : nat := match o with OIns _ _ _ => 1 | _ => 0 end.
@@ -194,7 +194,7 @@ Proof.
   induction l as [|f r IH]; intros n keep gone n' N H; cbn [rallh] in H.
   - inversion H; subst. repeat split; auto; try constructor; intros; contradiction.
   - inversion N as [|? ? N1 N2]; subst.
-    destruct (answer_match uf s n args (fargs f)) as [u n1].
+    destruct (answer_match_fast uf s n args (fargs f)) as [u n1].
     destruct u as [s1| | |]; try discriminate;
       destruct (rallh uf s args r n1) as [[[k' g'] n2]|] eqn:R; try discriminate; inversion H; subst; clear H;
       destruct (IH _ _ _ _ N2 R) as [A [B C]].
@@ -235,10 +235,10 @@ Section Loops.
   Proof.
     induction l as [|f l IH]; intros g g' a tr I H; cbn [scanq] in H.
     - inversion H; subst. apply post_refl.
-    - destruct (answer_match uf s (gn g) args (fargs f)) as [u n1]. destruct u as [s'| | |]; try discriminate.
+    - destruct (answer_match_fast uf s (gn g) args (fargs f)) as [u n1]. destruct u as [s'| | |]; try discriminate.
       + eapply bindr_post; [exact I| |intros g1 g2 a2 t2 I1 E; eapply IH; eauto|exact H].
         intros g1 a1 t1 E. destruct (rec r s' (set_n g n1)) as [[[g0 a0] t0]|] eqn:ER; [|discriminate]. inversion E; subst; clear E.
-        apply (@post_cons g (set_n g n1) g1 (OAns (fid f) (map (den s') args)) t0); simpl; auto.
+        apply (@post_cons g (set_n g n1) g1 (OAns (fid f) (map (den_fast s') args)) t0); simpl; auto.
         eapply Hrec; [|exact ER]. exact I.
       + apply (@post_trans g (set_n g n1) g' [] tr).
         * apply post_same; reflexivity.
@@ -250,13 +250,13 @@ Section Loops.
   Proof.
     induction l as [|f l IH]; intros g g' a tr I H; cbn [scanr] in H.
     - inversion H; subst. apply post_refl.
-    - destruct (answer_match uf s (gn g) args (fargs f)) as [u n1]. destruct u as [s'| | |]; try discriminate.
+    - destruct (answer_match_fast uf s (gn g) args (fargs f)) as [u n1]. destruct u as [s'| | |]; try discriminate.
       + destruct (has_id (fid f) (gdb g k)) eqn:HI.
         * eapply bindr_post; [exact I| |intros g1 g2 a2 t2 I1 E; eapply IH; eauto|exact H].
           intros g1 a1 t1 E.
-          set (g0 := mkg (upd k (del_id (fid f) (gdb g k)) (gdb g)) (gid g) n1) in *.
+          set (g0 := mkg (upd k (del_id (fid f) (gdb g k)) (gdb g)) (gid g) n1 (gw g)) in *.
           destruct (rec r s' g0) as [[[gx ax] tx]|] eqn:ER; [|discriminate]. inversion E; subst; clear E.
-          assert (V: valid_out (gdb g) (gid g) (ORet k (fid f) (map (den s') args))) by (simpl; apply has_id_in; exact HI).
+          assert (V: valid_out (gdb g) (gid g) (ORet k (fid f) (map (den_fast s') args))) by (simpl; apply has_id_in; exact HI).
           apply (@post_cons g g0 g1 _ tx V); simpl; auto.
           eapply Hrec; [|exact ER].
           apply (@valid_out_ids_ok _ _ _ I) in V. simpl in V. rewrite Nat.add_0_r in V. exact V.
@@ -273,7 +273,7 @@ Section Loops.
   Proof.
     induction cls as [|c cs IH]; intros g g' a tr I H; cbn [tryclauses] in H.
     - inversion H; subst. apply post_refl.
-    - destruct (unify_arrays uf s args (map (shift (gn g)) (chead c))) as [s'| | |]; try discriminate.
+    - destruct (unify_arrays_fast uf s args (map (shift (gn g)) (chead c))) as [s'| | |]; try discriminate.
       + apply (@post_trans g (set_n g (gn g + cnv c)) g' [] tr).
         * apply post_same; reflexivity.
         * eapply bindr_post; [exact I| |intros g1 g2 a2 t2 I1 E; eapply IH; eauto|exact H].
@@ -291,30 +291,34 @@ Section Solve.
   Lemma solve_good : forall n, good_rec (solve uf prog n).
   Proof.
     induction n as [|n IH]; intros gs s g g' a tr I H; [discriminate|].
-    cbn [solve] in H. destruct gs as [|[x y|name args|front t|t|t] r].
+    cbn [solve] in H. destruct (gw g) as [|w]; [discriminate|].
+    set (gt := mkg (gdb g) (gid g) (gn g) w) in *.
+    assert (I' : ids_ok (gdb gt) (gid gt)) by exact I.
+    change (post gt g' tr). clearbody gt. clear I. rename g into g_before. rename gt into g. rename I' into I.
+    destruct gs as [|[x y|name args|front t|t|t] r].
     - inversion H; subst. apply post_refl.
-    - destruct (unify uf s x y) as [s'| | |]; try discriminate.
+    - destruct (unify_fast uf s x y) as [s'| | |]; try discriminate.
       + eapply IH; eauto.
       + inversion H; subst. apply post_refl.
     - eapply bindr_post; [exact I| | |exact H].
       + intros g1 a1 t1 E. eapply scanq_post; [exact IH|exact I|exact E].
       + intros g1 g2 a2 t2 I1 E. eapply tryclauses_post; [exact IH|exact I1|exact E].
-    - destruct (callable (den s t)) as [[name args]|]; [|eapply IH; eauto].
-      destruct (answer_init s (gn g) args) as [stored n1].
+    - destruct (callable (den_fast s t)) as [[name args]|]; [|eapply IH; eauto].
+      destruct (answer_init_fast s args (gn g)) as [stored n1].
       set (k := (name, length args)) in *. set (f := mkfact (gid g) stored) in *.
-      set (g0 := mkg (upd k (ins front f (gdb g k)) (gdb g)) (S (gid g)) n1) in *.
+      set (g0 := mkg (upd k (ins front f (gdb g k)) (gdb g)) (S (gid g)) n1 (gw g)) in *.
       destruct (solve uf prog n r s g0) as [[[g1 a1] t1]|] eqn:E; [|discriminate]. inversion H; subst; clear H.
       assert (V: valid_out (gdb g) (gid g) (OIns k front f)) by reflexivity.
       apply (@post_cons g g0 g' _ t1 V); simpl; auto; [lia|].
       eapply IH; [|exact E].
       apply (@valid_out_ids_ok _ _ _ I) in V. simpl in V. replace (gid g + 1) with (S (gid g)) in V by lia. exact V.
-    - destruct (callable (den s t)) as [[name args]|].
+    - destruct (callable (den_fast s t)) as [[name args]|].
       + eapply scanr_post; [exact IH|exact I|exact H].
       + inversion H; subst. apply post_refl.
-    - destruct (callable (den s t)) as [[name args]|]; [|inversion H; subst; apply post_refl].
+    - destruct (callable (den_fast s t)) as [[name args]|]; [|inversion H; subst; apply post_refl].
       set (k := (name, length args)) in *.
       destruct (rallh uf s args (gdb g k) (gn g)) as [[[keep gone] n1]|] eqn:RA; [|discriminate].
-      set (g0 := mkg (upd k keep (gdb g)) (gid g) n1) in *.
+      set (g0 := mkg (upd k keep (gdb g)) (gid g) n1 (gw g)) in *.
       destruct (solve uf prog n r s g0) as [[[g1 a1] t1]|] eqn:E; [|discriminate]. inversion H; subst; clear H.
       pose proof I as [I1 _].
       destruct (@rallh_spec uf s args _ _ _ _ _ (I1 k) RA) as [A [B C]].
